@@ -32,7 +32,7 @@ PROPS = {
                 "non-trivial = at least 2 tasks, more than one token switch and at least one preemption inside a named window or one contended lock; "
                 "distinct = distinct hash of the sequence of (task, hook point) pairs at which the token changed hands",
         "assumptions": COMMON_ASSUMPTIONS + ["an update function that updates the very atom being swapped is excluded (as in the property)"],
-        "must_hit": ["preempt:atom.swap.read", "preempt:atom.swap.applied", "point:atom.swap.lock#contended", "porcupine_ok"],
+        "must_hit": ["preempt:atom.swap.read", "preempt:atom.swap.applied", "point:atom.swap.retry", "porcupine_ok"],
         "race": True, "race_share": 0.4,
     },
 }
